@@ -176,6 +176,16 @@ def all_ops():
 INEXACT_OPS = ('norm', 'collapse_md')   # results are not dyadic any more: later sums may differ by ulps
 
 
+ARG_WATCH = None     # set to a list by C07: argument tables are recorded as (name, table, content before)
+
+
+def _watch(name, tab):
+    if ARG_WATCH is not None:
+        from . import observe as O
+        ARG_WATCH.append((name, tab, O.content(tab)))
+    return tab
+
+
 def apply(op, t, m, strict=True):
     """strict=True: the op is judged against the model (domain guards and monitors on, Res.m is
     the expected model).  strict=False: the model merely follows the implementation – guards that
@@ -330,12 +340,13 @@ def apply(op, t, m, strict=True):
                 exp = MD.merge(m, pm, op[1], op[2])
             except ModelRefuse:
                 raise Refuse()
+        _watch('merge-partner', pt)
         return Res(t.merge(pt, sample=op[1], observation=op[2]), exp, False, order=('set', 'set'))
     if n == 'merge_self':
         if strict and (not m.o or not m.c):
             raise Refuse()
-        return Res(t.merge(t.copy()), X(lambda: MD.merge(m, m, 'union', 'union')), False,
-                   order=('set', 'set'))
+        return Res(t.merge(_watch('merge-self-copy', t.copy())),
+                   X(lambda: MD.merge(m, m, 'union', 'union')), False, order=('set', 'set'))
     if n == 'concat':
         ax = op[1]
         pt, pm = partner('disjoint')
@@ -346,6 +357,7 @@ def apply(op, t, m, strict=True):
             except ModelRefuse:
                 raise Refuse()
         order = ('set', 'exact') if ax == 'sample' else ('exact', 'set')
+        _watch('concat-partner', pt)
         return Res(t.concat([pt], axis=ax), exp, False, order=order)
     if n == 'concat_mix':
         if not m.o or not m.c:
@@ -355,6 +367,7 @@ def apply(op, t, m, strict=True):
         o = m.o[::-1]
         pm = M(o, ['q1'], [[float(i + 1)] for i in range(len(o))])
         pt = Table(np.array(pm.m), o, ['q1'])
+        _watch('concat-partner', pt)
         return Res(biom.concat([t, pt]), X(lambda: MD.concat([m, pm], 'sample')), False,
                    order=('set', 'exact'))
     if n in ('collapse', 'collapse_md'):
@@ -386,6 +399,7 @@ def apply(op, t, m, strict=True):
             raise Refuse()
         oth = t.sort_order(list(t.ids())[::-1]).sort_order(list(t.ids('observation'))[::-1],
                                                            axis='observation')
+        _watch('align-partner', oth)
         return Res(t.align_to(oth, axis='both'),
                    X(lambda: m.sort_order('sample', m.c[::-1]).sort_order('observation', m.o[::-1])),
                    False)
